@@ -30,7 +30,11 @@ LEVEL_NOTE = ("serial simulate() only (simulate_in_parallel needs ipyparallel "
               "clock inside the harness process")
 TECHNIQUE = ("property-based testing (Hypothesis) with a reference model of "
              "the repetition loop run in lock-step over generated programs")
-RULE = ("case = parameter grid + rep_max + stop rule + skip pattern + mode; "
+RULE = ("case = parameter grid (0..3 unpacked parameters as lists or arrays "
+        "of ints / floats / nearly equal floats / strings, optionally with a "
+        "value listed twice) + rep_max + stop rule (always / per-variation "
+        "repetition threshold / sum / ratio; returned as bool or "
+        "numpy.bool_) + skip pattern + mode; "
         "non-trivial = at least 2 variations and (at least one skip or an "
         "early stop before rep_max); distinct = SHA-1 of the case")
 ASSUMPTIONS = [
